@@ -104,9 +104,9 @@ Definition ld_debug_check (syn : list N) (s : ld_state) : RR unit :=
   else
     let row i := firstn v (skipn i syn) in
     let ok3 := forallb (fun i => N.eqb (gsum (zipw GF.mul (row i) (ld_y s))) (if i =? v - 1 then 1%N else 0%N)) (seq 0 v) in
-    if negb ok3 then Panic PAssert else
+    if negb ok3 then Panic PAssertLD else
     let ok4 := forallb (fun i => N.eqb (gsum (zipw GF.mul (row i) (ld_w s))) (nth (v + i) syn 0%N)) (seq 0 v) in
-    if negb ok4 then Panic PAssert else Ok tt.
+    if negb ok4 then Panic PAssertLD else Ok tt.
 
 (* find m: (1..t - v).find_map(|i| sigma_i != 0) *)
 Fixpoint find_m (syn tmp : list N) (v : nat) (is_ : list nat) : RR (option (nat * N)) :=
